@@ -269,6 +269,17 @@ def hash_obligations():
     o.append(Ob('hashmaster_getStringHash', P + ['C18'], enforce='Hashmaster__getStringHash', timeout=600,
                 replace=['Hashmaster__reset', 'Hashmaster__getHash_1', 'Hashmaster__getHash_2', 'Hashmaster__getres'], **HASH,
                 note='unbounded in the message length (symbolic 32-bit length, loop contract); call log: block j is string[64j..64j+64), then the final routine with the tail and the 64-bit bit count'))
+    # hashing buffer; the refill size constant is overridden by small values (DESIGN.md 2.4)
+    for hb in (1, 2, 3):
+        d = ['filebuffer64__HBUF_SZ=%d' % hb]
+        o.append(Ob('filebuffer64_ctor_hb%d' % hb, P, enforce='filebuffer64__ctor', replace=['wv_fread'], defines=d, **HASH,
+                    note='proof-build refill size HBUF_SZ=%d units' % hb))
+        o.append(Ob('filebuffer64_read_hb%d' % hb, P, enforce='filebuffer64__read_buffer64', replace=['wv_fread'], defines=d, **HASH,
+                    note='unit sequence 64,...,64,short across refills; proof-build refill size HBUF_SZ=%d units' % hb))
+    o.append(Ob('buffer64_dispatch_read', P, enforce='buffer64__read_buffer64', replace=['filebuffer64__read_buffer64'], defines=['filebuffer64__HBUF_SZ=2'], **HASH))
+    o.append(Ob('hashmaster_getFileHash', P, enforce='Hashmaster__getFileHash', timeout=600, defines=['filebuffer64__HBUF_SZ=2'], tier='thorough',
+                replace=['Hashmaster__reset', 'Hashmaster__getHash_1', 'Hashmaster__getHash_2', 'Hashmaster__getres', 'buffer64__read_buffer64'], **HASH,
+                note='unbounded in the stream length (symbolic 64-bit file length, loop contract with a decreasing variant)'))
     return o
 
 
